@@ -14,10 +14,11 @@ try:
     demo = os.path.join(src, "demo%s.py" % n); patch = os.path.join(src, "patch%s.diff" % n)
     # candidates were written in the author's own worktree (/tmp/mut_<prop>); point every such path at this confirmation worktree
     txt = open(demo).read().replace("/tmp/mut_%s" % prop, wt)
-    open(os.path.join(wt, "_demo.py"), "w").write("import sys; sys.path.insert(0, %r)\n" % wt + txt + "\nimport litedram as _l; assert _l.__file__.startswith(%r), _l.__file__\n" % wt)
+    os.makedirs(os.path.join(wt, "_out"), exist_ok=True)      # same relative position as where the author ran it
+    open(os.path.join(wt, "_out", "_demo.py"), "w").write("import sys; sys.path.insert(0, %r)\n" % wt + txt + "\nimport litedram as _l; assert _l.__file__.startswith(%r), _l.__file__\n" % wt)
     env = dict(os.environ, PYTHONPATH=wt)
     def run_demo():
-        p = subprocess.run(["/venv/bin/python", "_demo.py"], cwd=wt, env=env, stdout=subprocess.PIPE, stderr=subprocess.STDOUT, text=True, timeout=1200)
+        p = subprocess.run(["/venv/bin/python", "_out/_demo.py"], cwd=wt, env=env, stdout=subprocess.PIPE, stderr=subprocess.STDOUT, text=True, timeout=1200)
         return p.returncode, p.stdout[-600:]
     rc0, out0 = run_demo(); res["demo_clean_exit"] = rc0
     subprocess.check_call(["git", "-C", wt, "apply", patch])
